@@ -321,3 +321,103 @@ def slow_poll_round_is_consumed_progressively(ctx):
         ctx.check(has_iter, f'{pt.qualname}:slow poll round is an iterator', l, f'`{name} = iter(...)`: successive turns continue in the round',
                   f'`{name}` is never turned into an iterator: every turn scans the round from its first entry again - a parameter whose read fails '
                   'repeatedly (timestamp not refreshed) is picked every time and the parameters behind it are never polled again', pt)
+
+
+def _t13(test):
+    neg = False
+    t = test
+    while isinstance(t, ast.UnaryOp) and isinstance(t.op, ast.Not):
+        neg = not neg
+        t = t.operand
+    return t, neg
+
+
+@rule('C13.R6', min_instances=6)
+def the_poll_loop_does_its_work(ctx):
+    """presence and polarity of what bounded staleness rests on: a module whose main interval has expired (`now > last_main +
+    interval`, true side) gets doPoll called and its last_main advanced; a due slow parameter (`now > timestamp + ...`, true
+    side) gets its read function called; the pollinterval parameter is wired to PollInfo.update_interval; setFastPoll stores
+    flag and interval on the side where the module is polled and selects the fast interval when the flag is set;
+    update_interval applies the new interval when NOT in fast mode; trigger(immediate) resets last_main"""
+    m = ctx.m
+    pt = roles.poll_thread(m)
+    ctx.analysed(pt)
+    cfg = CFG(pt.node, m, pt.module)
+    n = 0
+    for t in cfg.nodes:
+        if t.kind != 'test':
+            continue
+        core, neg = _t13(t.ast)
+        txt = src(core)
+        due_main = 'last_main' in txt and 'interval' in txt and any(op in ('<', '<=') for sub in (core.values if isinstance(core, ast.BoolOp) else [core]) for l, op, r in compare_ops(sub))
+        due_slow = '.timestamp' in txt and 'slowinterval' in txt
+        if not (due_main or due_slow):
+            continue
+        # polarity: the comparison must be `now > due time` (normalised: due < now)
+        cmps = [(l, op, r) for sub in (core.values if isinstance(core, ast.BoolOp) else [core]) for l, op, r in compare_ops(sub) if op in ('<', '<=')]
+        expired_true = all(r == 'now' for l, op, r in cmps) != neg
+        side = cfg.reach([t.id], labels={'T' if expired_true else 'F'}, avoid=[t.id])
+        other = cfg.reach([t.id], labels={'F' if expired_true else 'T'}, avoid=[t.id])
+        n += 1
+        if due_main:
+            owner = getattr(t.ast, 'cfg_owner', None)
+            inside = {i for c in calls_in(pt.node) if call_attr(c) == 'callPollFunc' and c.args and 'doPoll' in src(c.args[0])
+                      and any(a is owner for a in ancestors(c)) for i in cfg.node_of(c)}
+            stamps = {i for tg, v, s in attr_stores(pt.node) if tg.attr == 'last_main' and any(a is owner for a in ancestors(s)) for i in cfg.node_of(s)}
+            ok = bool(inside) and inside <= side and bool(stamps & side) and not (stamps & other - side)
+            ctx.check(ok, f'{pt.qualname}:expired main interval -> doPoll and last_main advanced', t.ast, 'on the expired side: last_main = ..., callPollFunc(doPoll)',
+                      f'`{src(t.ast)}`: on the side where the main interval has expired doPoll is not called / last_main is not advanced (or this happens on the other side): '
+                      'the module is never polled, or polled without pause', pt)
+        else:
+            reads = {i for c in calls_in(pt.node) if call_attr(c) == 'callPollFunc' and any(a is getattr(t.ast, 'cfg_owner', None) for a in ancestors(c)) for i in cfg.node_of(c)}
+            ok = bool(reads) and reads <= side and not (reads & other - side)
+            ctx.check(ok, f'{pt.qualname}:due slow parameter is read', t.ast, 'callPollFunc(rfunc) on the due side',
+                      f'`{src(t.ast)}`: the read function of a due parameter is not called on the due side: polled parameters are never refreshed', pt)
+    if n < 2:
+        raise AnchorMissing('due tests (main interval / slow parameter) not found in the poll thread')
+    wired = [c for c in calls_in(pt.node) if call_attr(c) == 'addCallback' and c.args and isinstance(c.args[0], ast.Constant) and c.args[0].value == 'pollinterval'
+             and len(c.args) > 1 and 'update_interval' in src(c.args[1])]
+    ctx.check(bool(wired), f'{pt.qualname}:pollinterval is wired to the poll info', pt.node, "addCallback('pollinterval', pinfo.update_interval)",
+              'a change of the pollinterval parameter never reaches PollInfo.interval: it has no effect until restart', pt)
+    sf = m.method(roles.MODULE, 'setFastPoll', inherited=False)
+    ctx.analysed(sf)
+    cfgs = CFG(sf.node, m, sf.module)
+    st = {tg.attr: (v, s) for tg, v, s in attr_stores(sf.node) if tg.attr in ('fast_flag', 'interval')}
+    ctx.check(set(st) == {'fast_flag', 'interval'}, f'{sf.qualname}:stores flag and interval', sf.node, 'both are stored',
+              f'setFastPoll stores only {sorted(st)}: switching fast polling has no (or half an) effect', sf)
+    for t in cfgs.nodes:
+        if t.kind == 'test':
+            core, neg = _t13(t.ast)
+            if 'pollInfo' in src(core) or (isinstance(core, ast.Name) and any('pollInfo' in src(o) for o in origins(core, sf.node) if o is not core)):
+                side = cfgs.reach([t.id], labels={'F' if neg else 'T'}, avoid=[t.id])
+                sids = {i for v, s in st.values() for i in cfgs.node_of(s)}
+                ctx.check(bool(sids) and sids <= side, f'{sf.qualname}:applied when the module is polled', t.ast, 'stores on the side where pollInfo exists',
+                          f'`{src(t.ast)}`: the stores run only when the module has no poll info (AttributeError) - a polled module ignores setFastPoll', sf)
+    if 'interval' in st and isinstance(st['interval'][0], ast.IfExp):
+        ie = st['interval'][0]
+        core, neg = _t13(ie.test)
+        fast, slow = (ie.orelse, ie.body) if neg else (ie.body, ie.orelse)
+        fparam = sf.node.args.args[2].arg if len(sf.node.args.args) > 2 else 'fast_interval'
+        ctx.check(src(core) == sf.node.args.args[1].arg and src(fast) == fparam and 'pollinterval' in src(slow), f'{sf.qualname}:fast interval iff the flag is set', ie,
+                  f'`{src(ie)}`', f'`{src(ie)}`: the fast interval is used when fast polling is switched OFF', sf)
+    ui = m.method('frappy.modulebase.PollInfo', 'update_interval', inherited=False)
+    ctx.analysed(ui)
+    cfgu = CFG(ui.node, m, ui.module)
+    for t in cfgu.nodes:
+        if t.kind == 'test':
+            core, neg = _t13(t.ast)
+            if src(core) == 'self.fast_flag':
+                side = cfgu.reach([t.id], labels={'T' if neg else 'F'}, avoid=[t.id])       # fast_flag false
+                sids = {i for tg, v, s in attr_stores(ui.node) if tg.attr == 'interval' for i in cfgu.node_of(s)}
+                ctx.check(bool(sids) and sids <= side, f'{ui.qualname}:new poll interval applies outside fast mode', t.ast, 'stored on the not-fast side',
+                          f'`{src(t.ast)}`: a changed pollinterval is applied only while fast polling is on', ui)
+    tr = m.method('frappy.modulebase.PollInfo', 'trigger', inherited=False)
+    cfgt = CFG(tr.node, m, tr.module)
+    for t in cfgt.nodes:
+        if t.kind == 'test':
+            core, neg = _t13(t.ast)
+            if src(core) == 'immediate':
+                side = cfgt.reach([t.id], labels={'F' if neg else 'T'}, avoid=[t.id])
+                sids = {i for tg, v, s in attr_stores(tr.node) if tg.attr == 'last_main' for i in cfgt.node_of(s)}
+                ctx.check(bool(sids) and sids <= side, f'{tr.qualname}:immediate resets last_main', t.ast, 'last_main = 0 on the immediate side',
+                          f'`{src(t.ast)}`: trigger(immediate=True) does not make the main poll due', tr)
